@@ -26,6 +26,21 @@ type Byz struct {
 
 	groupA map[int]bool // split strategy: honest members told value A
 	withheld []*delivery
+
+	// camps strategy
+	campSent   map[campSlot]bool
+	campTarget map[uint64][2]*gpbft.ECChain
+	flipped    map[uint64]bool
+	pursuing   bool
+}
+
+type campSlot struct {
+	K      uint64
+	Round  uint64
+	Phase  gpbft.Phase
+	Member int
+	Camp   int
+	Bottom bool
 }
 
 type poolKey struct {
@@ -38,7 +53,8 @@ type poolKey struct {
 func newByz(w *World) *Byz {
 	b := &Byz{w: w, mine: map[gpbft.ActorID]bool{}, pool: map[poolKey]map[gpbft.ActorID][]byte{},
 		chains: map[uint64]map[gpbft.ECChainKey]*gpbft.ECChain{}, justs: map[uint64][]*gpbft.Justification{},
-		maxRound: map[uint64]uint64{}, groupA: map[int]bool{}}
+		maxRound: map[uint64]uint64{}, groupA: map[int]bool{}, campSent: map[campSlot]bool{},
+		campTarget: map[uint64][2]*gpbft.ECChain{}, flipped: map[uint64]bool{}}
 	for _, m := range w.members {
 		if m.Role == Byzantine {
 			b.members = append(b.members, m)
@@ -394,11 +410,96 @@ func (b *Byz) move() {
 	w.r.Fault("byz_message")
 }
 
+// campValue returns the value the adversary promotes towards a camp in instance k: the input
+// of the first honest member of that camp seen so far.
+func (b *Byz) campValue(k uint64, camp int) *gpbft.ECChain {
+	info := b.w.instance(k)
+	if info == nil {
+		return nil
+	}
+	t := b.campTarget[k]
+	if t[camp] == nil {
+		for _, m := range b.w.members {
+			if m.Role == Honest && b.w.cfg.Camp[m.Idx] == camp {
+				if in, ok := info.Inputs[m.Idx]; ok {
+					t[camp] = in
+					break
+				}
+			}
+		}
+		b.campTarget[k] = t
+	}
+	return t[camp]
+}
+
+// pursue is the coherent split-brain strategy: in every step of every round the adversary can
+// reach, every Byzantine member votes for camp 0's value towards camp 0 and for camp 1's value
+// towards camp 1 (and, where a vote for bottom is admissible, optionally for bottom), as soon
+// as the needed justification can be assembled from observed signatures.
+func (b *Byz) pursue(k uint64) {
+	w := b.w
+	if b.pursuing || w.instance(k) == nil {
+		return
+	}
+	b.pursuing = true
+	defer func() { b.pursuing = false }()
+	lo := uint64(0)
+	if b.maxRound[k] > 1 {
+		lo = b.maxRound[k] - 1
+	}
+	phases := []gpbft.Phase{gpbft.QUALITY_PHASE, gpbft.CONVERGE_PHASE, gpbft.PREPARE_PHASE, gpbft.COMMIT_PHASE, gpbft.DECIDE_PHASE}
+	for r := lo; r <= b.maxRound[k]+1; r++ {
+		for _, ph := range phases {
+			if (ph == gpbft.QUALITY_PHASE || ph == gpbft.DECIDE_PHASE) && r != 0 {
+				continue
+			}
+			if ph == gpbft.CONVERGE_PHASE && r == 0 {
+				continue
+			}
+			for camp := 0; camp < 2; camp++ {
+				v := b.campValue(k, camp)
+				if w.cfg.ByzStrategy == 4 && b.flipped[k] && camp == 1 {
+					// after somebody decided, push the other camp towards a different value
+					v = b.campValue(k, 1)
+				}
+				if v == nil {
+					continue
+				}
+				for _, m := range b.members {
+					cs := campSlot{k, r, ph, m.Idx, camp, false}
+					if b.campSent[cs] {
+						continue
+					}
+					msg := b.craft(m, k, r, ph, v)
+					if msg == nil {
+						continue
+					}
+					b.campSent[cs] = true
+					n := b.sendTo(m, msg, func(t *Member) bool { return w.cfg.Camp[t.Idx] == camp })
+					if n > 0 {
+						w.r.Fault("byz_message")
+						w.r.Probe("byz_camp_" + ph.String())
+					}
+				}
+			}
+		}
+	}
+}
+
 // react is called after every honest broadcast.
 func (b *Byz) react(msg *gpbft.GMessage) {
 	w := b.w
 	if len(b.members) == 0 {
 		return
+	}
+	if w.cfg.ByzStrategy >= 3 {
+		if msg.Vote.Phase == gpbft.DECIDE_PHASE {
+			b.flipped[msg.Vote.Instance] = true
+		}
+		b.pursue(msg.Vote.Instance)
+		if w.cfg.ByzRate == 0 {
+			return
+		}
 	}
 	if w.c.Chance(w.cfg.ByzRate) {
 		d := w.c.Dur(0, w.cfg.Delta)
